@@ -4,7 +4,42 @@ from harness.gen import layout as L
 CONT_CHARS = "123456789&+$*.aX#"
 CODE = ["x", "=", "y1", "+", "call", "foo", "(", ")", ",", "a%b", "1.0e0", "if", "then", "end", "do", "print",
         "*", "//", "integer", "n_2", ".and.", "100", "/", "-", "goto", "continue"]
-LITS = ["", "a", "abc", "it's", "c!d", "  two  ", "x ; y", "&", "end do", "C comment?", "* star", "!"]
+LITS = ["", "a", "abc", "it's", "c!d", "  two  ", "x ; y", "&", "end do", "C comment?", "* star", "!", "!!",
+        "a ! b ' c", 'say "hi" !', "! &"]
+# bodies of literals that may be continued across lines (the open finding); no quote characters in them
+SPLIT_LITS = ["abcdef", "ab cd", "a  b", "hello, world", "x!y", "12345678"]
+# inline comments: text after the '!'.  A leading '!' makes a documentation comment ("!! ...").  Never '>', '*' or
+# '|' first: those are FORD's other documentation marks, which FORD rejects inline in free form as well.
+INLINE = [" note", " it's", " c", "", "! doc text", "! doc's \"q", " x = 'a", " ! again", "  trailing  ", " &",
+          " a ; b", "!", " say \"hi", "! with & and ;", " call f('x')"]
+SEQ = ["00012345", "SEQ", "!x", "ABCDEFGH", "'q", "&"]
+COMMENT_LINES = ["", " comment", "     more", "$ompx", " it's", "! doc line", " & x"]
+
+
+def blank_line(rng, wide=True):
+    """a whitespace-only line; wide: any width 0..80 (and now and then tabs), else at most 5 columns"""
+    if not wide:
+        return " " * rng.choice([0, 1, 2, 5])
+    r = rng.random()
+    if r < 0.3:
+        return " " * rng.choice([0, 1, 2, 5])
+    if r < 0.6:
+        return " " * rng.choice([6, 7, 8, 20, 66, 71, 72, 73, 74, 80])
+    if r < 0.95:
+        return " " * rng.randint(1, 80)
+    return rng.choice(["\t", "      \t", "\t\t\t\t\t\t\t", "   \t   \t "])
+
+
+def between_lines(rng, knobs):
+    """comment lines and whitespace-only lines between a line and its continuation line"""
+    out = []
+    p = knobs.get("p_between", 0.2)
+    while rng.random() < p:
+        if rng.random() < 0.45:
+            out.append(rng.choice("Cc*!") + rng.choice(COMMENT_LINES))
+        else:
+            out.append(blank_line(rng))
+    return out
 
 
 def gen_statement(rng, p_label=0.25):
@@ -23,67 +58,113 @@ def gen_statement(rng, p_label=0.25):
 
 
 def render_fixed(rng, label, pieces, knobs):
-    """-> (lines without newline, regions, ncont)"""
-    toks = [L.render_cs([p])[0] for p in pieces if p[0] != "s"]
+    """-> (lines without newline, pieces as the standard reads them, regions, ncont, shapes)"""
+    pieces = list(pieces)
     width = knobs.get("width", 66)
-    lines_code, cur = [], ""
-    for t in toks:
+    ll = knobs.get("length_limit", True)
+    # the open finding: one literal of the statement continued across lines (only with the standard line length)
+    split_at = None
+    if ll and width == 66 and rng.random() < knobs.get("p_region", 0.02):
+        split_at = len(pieces)
+        q = rng.choice("'\"")
+        if pieces:
+            pieces.append(("s", 1))
+            split_at += 1
+        pieces.append(("l", q, rng.choice(SPLIT_LITS)))
+        if rng.random() < 0.5:
+            pieces += [("s", 1), ("c", rng.choice(CODE))]
+    # statement fields of the lines; each entry: [text, exact] (exact: the line ends inside the split literal)
+    fields, cur = [], ""
+    first_pad = " " * rng.choice([0, 0, 1, 3])
+    for pi, p in enumerate(pieces):
+        if p[0] == "s":
+            continue
+        t = L.render_cs([p])[0]
+        if pi == split_at:
+            body = p[2]
+            j = rng.randint(1, len(body) - 1)
+            head = (cur + " " if cur else "") + p[1] + body[:j]
+            lead = first_pad if not fields else ""
+            if len(lead + head) <= width:
+                fields.append([head, True])
+                fill = width - len(lead + head)          # blanks up to column 72 belong to the literal
+                pieces[pi] = ("l", p[1], body[:j] + " " * fill + body[j:])
+                cur = body[j:] + p[1]
+                continue
+            split_at = None
         # break between tokens: either the line is full or at random
-        if cur and (len(cur) + 1 + len(t) > width or rng.random() < knobs.get("p_break", 0.15)):
-            lines_code.append(cur)
+        if cur and (len(cur) + 1 + len(t) > width - 3 or rng.random() < knobs.get("p_break", 0.15)):
+            fields.append([cur, False])
             cur = t
         else:
             cur = cur + (" " if cur else "") + t
-    lines_code.append(cur)
-    regions = set()
+    fields.append([cur, False])
+    regions, shapes = set(), set()
+    if split_at is not None and any(e for _, e in fields):
+        regions.add("literal_split")
     out = []
-    for i, code in enumerate(lines_code):
+    for i, (code, exact) in enumerate(fields):
+        last = i == len(fields) - 1
+        after_exact = i > 0 and fields[i - 1][1]
         if i == 0:
             lab = (label or "")
             lab = lab.rjust(5) if rng.random() < 0.5 else lab.ljust(5)
             c6 = rng.choice(" 0") if rng.random() < 0.3 else " "
+            pad = first_pad
         else:
             lab = "     "
             c6 = rng.choice(CONT_CHARS)
-        pad = " " * rng.choice([0, 0, 1, 3]) if len(code) + 3 <= width else ""
+            pad = "" if (after_exact or exact) else (" " * rng.choice([0, 0, 1, 3]) if len(code) + 3 <= width else "")
         line = lab + c6 + pad + code
-        last = i == len(lines_code) - 1
-        if rng.random() < knobs.get("p_seq", 0.2) and knobs.get("length_limit", True):
-            line = line.ljust(72) + rng.choice(["00012345", "SEQ", "!x", "ABCDEFGH"])
-        elif rng.random() < 0.15 and (last or rng.random() < knobs.get("p_region", 0.05)) and len(line) < 60:
-            line = line + " ! " + rng.choice(["note", "it's", "c"])
-            if not last:
-                regions.add("inline_comment_continued")
-        out.append(line)
+        if exact:
+            out.append(line if rng.random() < 0.5 else line.ljust(72))
+        else:
+            # inline comment, on last and on continued lines alike
+            if rng.random() < knobs.get("p_comment", 0.2):
+                gap = " " * rng.choice([0, 1, 1, 2, 5])
+                if rng.random() < 0.15 and len(line) < 70:
+                    gap = " " * (rng.choice([70, 71, 72]) - len(line) - 1)   # the '!' close to column 72
+                line = line + gap + "!" + rng.choice(INLINE)
+                shapes.add("inline_comment_last" if last else "inline_comment_continued")
+                if len(line) > 72:
+                    shapes.add("comment_past_72")
+            if ll and rng.random() < knobs.get("p_seq", 0.2):
+                if len(line) <= 72:
+                    line = line.ljust(72) + rng.choice(SEQ)
+                    shapes.add("long_line" if last else "long_line_continued")
+                    if "!" in line[6:72] and not last:
+                        shapes.add("long_line_comment_continued")
+            out.append(line)
         if not last:
-            while rng.random() < 0.2:
-                r = rng.random()
-                if r < 0.6:
-                    out.append(rng.choice("Cc*!") + rng.choice(["", " comment", "     more", "$ompx"]))
-                elif r < 0.9 or rng.random() > knobs.get("p_region", 0.05):
-                    out.append(rng.choice(["", " ", "  ", "     "]))
-                else:
-                    out.append(" " * rng.choice([6, 7, 20]))
-                    regions.add("blank6_before_continuation")
-    return out, regions, len(lines_code) - 1
+            bl = between_lines(rng, knobs)
+            if any(not b.strip() and len(b) >= 6 for b in bl):
+                shapes.add("wide_blank_before_continuation")
+            if sum(1 for b in bl if not b.strip()) >= 2:
+                shapes.add("several_blanks_before_continuation")
+            out += bl
+    return out, pieces, regions, len(fields) - 1, shapes
 
 
 def gen_file(rng, knobs=None):
     knobs = dict(knobs or {})
-    knobs.setdefault("p_break", rng.choice([0.0, 0.0, 0.05, 0.15]))
+    knobs.setdefault("p_break", rng.choice([0.0, 0.0, 0.05, 0.15, 0.3]))
     knobs.setdefault("p_seq", rng.choice([0.0, 0.3, 1.0]))
     knobs.setdefault("p_label", rng.choice([0.1, 0.25, 0.9]))
+    knobs.setdefault("p_comment", rng.choice([0.0, 0.2, 0.5, 0.9]))
+    knobs.setdefault("p_between", rng.choice([0.0, 0.2, 0.5, 0.7]))
     if not knobs.get("length_limit", True):
         # with the length limit off, statement text may run beyond column 72
         knobs.setdefault("width", rng.choice([66, 100, 120]))
-    lines, pss, regions, ncont = [], [], set(), 0
+    lines, pss, regions, ncont, shapes = [], [], set(), 0, set()
     for _ in range(rng.choice([1, 2, 3, 5])):
         while rng.random() < 0.25:
-            lines.append(rng.choice(["C header", "c", "*  star", "! bang", "", "   ", "      "]))
+            lines.append(rng.choice(["C header", "c", "*  star", "! bang", "", "   ", "      ", " " * 7, " " * 40,
+                                     " " * 75]))
         label, pieces = gen_statement(rng, knobs["p_label"])
-        ls, rg, nc = render_fixed(rng, label, pieces, knobs)
+        ls, pieces, rg, nc, sh = render_fixed(rng, label, pieces, knobs)
         lines += ls
         regions |= rg
+        shapes |= sh
         ncont += nc
         pss.append(([("c", label), ("s", 1)] if label else []) + pieces)
-    return lines, pss, regions, ncont
+    return lines, pss, regions, ncont, shapes
